@@ -594,6 +594,8 @@ def judge_fragment(case):
         ctx = "with"  # a raw `self` is documented to be illegal in a default value
     if ctx.endswith("-bare") and topbool:
         ctx = ctx[:-5]  # use the marker form of the same context
+    if ctx == "require-bare" and text.lstrip().startswith("["):
+        ctx = "require"  # `require [0] * 3`: the bracket would be read as `require[p]`
     out.cls("frag:" + ctx, "frag-top:" + tname)
     src, line, col, marked = embed(ctx, text, case["pad"])
     try:
